@@ -87,7 +87,7 @@
 (*                         in the code, repaired in /repo 2236619)         *)
 (*                         -> <<10, 9>> with strict passed positionally    *)
 (* The read-back has a class / constructor dimension (Ways): Deb822 /      *)
-(* Release / PdiffIndex parse the lines directly; Dsc / Changes / BuildInfo *)
+(* Release / PdiffIndex parse the lines directly; Dsc, Changes, BuildInfo  *)
 (* first cut ONE paragraph out of list / file input with a pre-pass        *)
 (* (split_gpg_and_payload without comment skipping) and parse its payload; *)
 (* Cls(x, strict) reads one paragraph, Cls.iter_paragraphs(x, strict)      *)
